@@ -51,7 +51,7 @@ func TestC23(t *testing.T) {
 	defer r.Finish()
 	polyeth.VerifSealBypass = true
 	defer func() { polyeth.VerifSealBypass = false }()
-	r.Rule("per router: a synced synthetic chain (trust root, 2 blocks without the deposits, then blocks whose state holds ~45 committed deposits, one non-canonical fork block holding an extra deposit) with BlocksToWait in {1,2,6}; ~45 proof cases per chain, each with its own deposit: valid at depth / exactly at the confirmation boundary / one short of it / above head / below the trust root / at a block before the deposit; truncated, reordered, padded proofs; node from another trie; other account; CCMC mismatch; altered account fields; wrong slot; message altered / truncated; slots holding short words (1, 2, 3, 16, 31 bytes) equal to the tail / head of the message hash; commitments off by one byte; hash with a leading zero byte (must be accepted); absence proofs; fork-block deposit; malformed JSON; distinct = (router, BlocksToWait, case)")
+	r.Rule("per router: a synced synthetic chain (trust root, 2 blocks without the deposits, then blocks whose state holds ~45 committed deposits, one non-canonical fork block holding an extra deposit) with BlocksToWait in {1,2,6}; ~45 proof cases per chain, each with its own deposit: valid at depth / exactly at the confirmation boundary / one short of it / above head / below the trust root / at a block before the deposit; truncated, reordered, padded proofs; node from another trie; other account; CCMC mismatch; altered account fields; wrong slot; message altered / truncated; slots holding short words (1, 2, 3, 16, 31 bytes) equal to the tail / head of the message hash; commitments off by one byte; hash with a leading zero byte (must be accepted); absence proofs; fork-block deposit; malformed JSON; plus per trial two reorganisation scenarios (long light chain A, then a SHORTER but heavier fork B becomes the head: eth slow vs fast blocks, PoSA out-of-turn vs in-turn seals) with deposits proven against orphaned A blocks at every height relative to the new head (at/below it, above it up to A's old tip, beyond) and against canonical B blocks; distinct = (router, BlocksToWait, case)")
 	r.Assume("confirmations are counted as the handlers define them: a block at the head has 1 confirmation, so a deposit at height h is confirmed when head - h + 1 >= BlocksToWait (BlocksToWait >= 1 is enforced at registration)")
 	r.Assume("cases whose claim is true but whose proof is not in canonical eth_getProof form (nodes reordered, junk nodes added, two storage proofs, odd hex casing) are checked for soundness only: if accepted, the delivered message must be the submitted one")
 	r.Assume("driven through cross_chain_manager.ImportOuterTransfer (entrance.go), destination chain registered, fresh cross-chain id per case; replay protection belongs to C20 and is only recorded here")
@@ -76,8 +76,20 @@ func TestC23(t *testing.T) {
 					return
 				}
 			}
+			// two reorganisation scenarios per trial (long light chain A -> shorter heavier fork B)
+			for k := 0; k < 2; k++ {
+				rng := r.Rand(fmt.Sprintf("%s/reorg/%d/%d", name, tr, k))
+				runReorg(r, rng, e, name, uint64(5000+tr*2+k), uint64(1+(tr+k)%3))
+				if r.Violations() > 10 {
+					return
+				}
+			}
 		}
 		covered = append(covered, name)
+		r.Require(name+":reorg_to_lower_head_setups", trials)
+		r.Require(name+":rejected_orphan_above_head_after_reorg", trials*2)
+		r.Require(name+":rejected_orphan_at_or_below_head_after_reorg", trials*2)
+		r.Require(name+":accepted_in_heavier_shorter_fork", trials)
 		r.Require(name+":accepted", trials*3*4)
 		r.Require(name+":rejected", trials*3*35)
 		r.Require(name+":rejected_short_word", trials*3*10)
@@ -490,6 +502,9 @@ func runCase(r *kit.Run, e *es.Env, router string, chainID, w uint64, src string
 			r.Violation("router:"+router+" valid-deposit-rejected:"+c.name, fmt.Sprintf("%s: %s", src, rec.Err), replay)
 		} else {
 			r.Count(router+":accepted", 1)
+			if strings.HasPrefix(c.name, "after-reorg") {
+				r.Count(router+":accepted_in_heavier_shorter_fork", 1)
+			}
 			if c.name == "valid-at-confirmation-boundary" {
 				r.Count(router+":accepted_at_confirmation_boundary", 1)
 			}
@@ -509,6 +524,12 @@ func runCase(r *kit.Run, e *es.Env, router string, chainID, w uint64, src string
 				}
 			case "fork-block-deposit":
 				r.Count(router+":rejected_fork_block_deposit", 1)
+			}
+			if strings.Contains(c.name, "orphaned-A-block-above-head") {
+				r.Count(router+":rejected_orphan_above_head_after_reorg", 1)
+			}
+			if strings.Contains(c.name, "orphaned-A-block-at-or-below-head") {
+				r.Count(router+":rejected_orphan_at_or_below_head_after_reorg", 1)
 			}
 			if strings.HasPrefix(c.name, "short-word-") {
 				r.Count(router+":rejected_short_word", 1)
